@@ -19,10 +19,10 @@
 (***************************************************************************)
 EXTENDS Integers, Sequences, FiniteSets, TLC, Json
 
-Sites == {"pm", "pmFromDataset", "pmFromFile", "restpath", "varRx", "ctlRx", "relevantStatus", "rx", "validateSchema", "validateNid"}
+Sites == {"pm", "pmFromDataset", "pmFromFile", "restpath", "varRx", "ctlRx", "relevantStatus", "rx", "validateSchema", "validateNid", "ipMatchFromDataset"}
 \* the kind of value a site stores (a type assertion on another kind panics)
 Kind(site) == IF site \in {"pm", "pmFromDataset", "pmFromFile"} THEN "matcher"
-              ELSE IF site = "rx" THEN "rxCompiled" ELSE IF site = "validateSchema" THEN "schema" ELSE "regexp"
+              ELSE IF site = "rx" THEN "rxCompiled" ELSE IF site = "validateSchema" THEN "schema" ELSE IF site = "ipMatchFromDataset" THEN "subnets" ELSE "regexp"
 
 CONSTANTS KeyDesign,     \* "raw": the key is the author's text (pinned commit) | "namespaced": site + content
           MaxWAFs
@@ -50,7 +50,14 @@ Configs ==
      \* one regex key text on a case-sensitive and on a case-insensitive collection: the artefact differs (the second is folded)
      <<Use("varRx", "^Ab", "^Ab")>>,
      <<Use("varRx", "^Ab", "^ab")>>,
-     <<Use("validateNid", "abc.def", "abc.def")>> >>
+     <<Use("validateNid", "abc.def", "abc.def")>>,
+     \* address lists under one data-set name (not cached at the pinned commit: whoever caches them must key by content)
+     <<Use("ipMatchFromDataset", "ips", "10.0.0.1")>>,
+     <<Use("ipMatchFromDataset", "ips", "10.0.0.2")>>,
+     \* one expression text used by @restpath (which reads the captured groups) and by @validateNid (yes / no only):
+     \* the cached regexp is shared, so nobody may change how it matches
+     <<Use("restpath", "files-a|ab", "files-a|ab")>>,
+     <<Use("validateNid", "files-a|ab", "files-a|ab")>> >>
 
 Key(u) == IF KeyDesign = "raw" THEN u.text ELSE <<u.site, u.content>>
 Artefact(u) == [kind |-> Kind(u.site), site |-> u.site, content |-> u.content]
